@@ -32,7 +32,7 @@ func init() {
 		MinEvals:        floor(100000, 500000),
 		MinDistinct:     floor(50000, 100000),
 		RequiredCells: func(string) []string {
-			return []string{"purity/command/history", "purity/command/concurrent", "rel/equal", "rel/parent", "rel/child", "rel/textual-prefix", "rel/sibling", "rel/top", "parse/accept", "parse/reject-noslash", "parse/reject-trailing", "parse/reject-upper", "join", "join/with-empty-segments", "transitivity/chain", "non-ascii-pairs", "lookalike-pairs", "parse/alphabet/other-uppercase"}
+			return []string{"purity/command/history", "purity/command/concurrent", "rel/equal", "rel/parent", "rel/child", "rel/textual-prefix", "rel/sibling", "rel/top", "parse/accept", "parse/reject-noslash", "parse/reject-trailing", "parse/reject-upper", "join", "join/with-empty-segments", "parse/after-join", "parse/after-join-fresh-process", "transitivity/chain", "non-ascii-pairs", "lookalike-pairs", "parse/alphabet/other-uppercase"}
 		},
 	})
 	addSelfTest("R-cmd vs in-tree TestCovers vectors", selfTestCmd)
@@ -105,6 +105,19 @@ func cmdRel(a, b string) string {
 func runC15(w *mon.W) {
 	if purityGate(w, c15Purity) {
 		return
+	}
+	// first thing in a fresh process: texts the parser must refuse are produced by New / Join
+	// (which do not police their segments) and then offered to the parser - what Join has
+	// produced is not thereby a valid command
+	for _, segs := range [][]string{{"Crud", "Read"}, {"store/"}, {"a", "B"}, {"É"}, {"a/"}, {"Ⅳ"}, {"x", "Up", "y"}, {"msg", "Ⓐ"}} {
+		for _, base := range []string{"/", "/crud"} {
+			got := command.Command(base).Join(segs...)
+			c15Parse(w, string(got))
+			if base == "/" {
+				c15Parse(w, string(command.New(segs...)))
+			}
+			w.Cover("parse/after-join-fresh-process")
+		}
 	}
 	cmds := c15Commands()
 	parsed := make([]command.Command, len(cmds))
@@ -328,7 +341,7 @@ func runC15(w *mon.W) {
 	}
 
 	// Join / New
-	segAlpha := []string{"a", "b", "ab", "foo", "x-y", "é", "1", ".", "..", "...", "~", " ", "%2f", "a.b"}
+	segAlpha := []string{"a", "b", "ab", "foo", "x-y", "é", "1", ".", "..", "...", "~", " ", "%2f", "a.b", "Up", "É", "a/", "/a", "Ⅳ"}
 	for i := 0; i < w.Share(w.Pick(5000, 50000)); i++ {
 		base := cmds[w.Rng.IntN(len(cmds))]
 		n := w.Rng.IntN(4)
@@ -343,7 +356,17 @@ func runC15(w *mon.W) {
 		if string(got) != want {
 			w.Violate("join", fmt.Sprintf("Command(%q).Join(%q) = %q, want %q", base, segs, got, want), map[string]any{"base": base, "segs": segs})
 		}
-		if !sameStrings(got.Segments(), append(append([]string{}, ref.CmdSegments(base)...), segs...)) {
+		// Join does not police its segments; the parser still does, also for a text that Join (or
+		// New) has just produced
+		c15Parse(w, string(got))
+		w.Cover("parse/after-join")
+		slashFree := true
+		for _, sg := range segs {
+			if strings.Contains(sg, "/") {
+				slashFree = false
+			}
+		}
+		if slashFree && !sameStrings(got.Segments(), append(append([]string{}, ref.CmdSegments(base)...), segs...)) {
 			w.Violate("join/segments", fmt.Sprintf("Command(%q).Join(%q).Segments() = %q", base, segs, got.Segments()), map[string]any{"base": base, "segs": segs})
 		}
 		if base == "/" {
@@ -354,7 +377,13 @@ func runC15(w *mon.W) {
 		// with empty segments among them the exact result is not pinned by the property (dropped or
 		// kept as empty segments), but what comes out must still be a command: Parse accepts it and
 		// returns it unchanged, and it is covered by the base command
-		if n > 0 {
+		segsValid := true
+		for _, sg := range segs {
+			if sg == "" || strings.Contains(sg, "/") || !ref.CmdValid("/"+sg) {
+				segsValid = false
+			}
+		}
+		if n > 0 && segsValid {
 			withEmpty := append([]string{}, segs...)
 			k := w.Rng.IntN(len(withEmpty) + 1)
 			withEmpty = append(withEmpty[:k:k], append([]string{""}, withEmpty[k:]...)...)
